@@ -88,6 +88,21 @@ class TwoFloatToBool(nn.Module):
         return torch.where(m, x, -y).sum()
 
 
+class DynSlice(nn.Module):
+    """slices by a shape-derived size; called with two different lengths so that TorchDynamo re-traces with a symbolic
+    size: the tracked graph then holds non-float nodes (size placeholder, floordiv) INSIDE slice objects"""
+
+    def __init__(self) -> None:
+        super().__init__()
+        self.l = nn.Linear(6, 6)
+
+    def forward(self, x: torch.Tensor) -> torch.Tensor:
+        h = self.l(x)
+        n = h.shape[0] // 2
+        a, b = h[:n], h[n: 2 * n]
+        return (torch.cat([-b, a], dim=0) * h[: 2 * n]).sum()
+
+
 class MultiOut(nn.Module):
     def __init__(self) -> None:
         super().__init__()
@@ -124,7 +139,7 @@ MODULES: Dict[str, Tuple[Callable[[], nn.Module], Callable[[], List[torch.Tensor
     "views": (Views, lambda: [torch.randn(6, 6)]), "rotate_half": (RotateHalf, lambda: [torch.randn(4, 6)]),
     "cat_views": (CatViews, lambda: [torch.randn(36)]), "kw_tensors": (KwTensors, lambda: [torch.randn(36)]),
     "int_index": (IntIndex, lambda: [torch.randn(4, 6)]), "two_float_to_bool": (TwoFloatToBool, lambda: [torch.randn(4, 6)]), "multi_out": (MultiOut, lambda: [torch.randn(4, 6)]),
-    "residual": (Residual, lambda: [torch.randn(36)]), "embed": (Embed, lambda: [torch.randint(0, 9, (5,))]),
+    "residual": (Residual, lambda: [torch.randn(36)]), "dyn_slice": (DynSlice, lambda: [[torch.randn(6, 6)], [torch.randn(8, 6)]]), "embed": (Embed, lambda: [torch.randint(0, 9, (5,))]),
 }
 
 
@@ -134,7 +149,12 @@ def tracked_graph(mname: str, backward: bool) -> fx.Graph:
     torch._dynamo.reset()
     mk, ins = MODULES[mname]
     m = track_scales(mk())
-    out = m(*ins())
+    inputs = ins()
+    if inputs and isinstance(inputs[0], list):  # several calls (the last one defines the tracked graph)
+        for extra in inputs[:-1]:
+            m(*extra)
+        inputs = inputs[-1]
+    out = m(*inputs)
     if backward:
         loss = out[0] + out[1] if isinstance(out, tuple) else out
         loss.backward()
